@@ -3,6 +3,8 @@ package driver
 import (
 	"context"
 	"fmt"
+	"net/http"
+	"net/url"
 	"reflect"
 	"runtime"
 	"runtime/debug"
@@ -20,6 +22,9 @@ type ConcurrentConfig struct {
 	// Creds: credentials every request carries (header -> value prefix); the request's case id is appended
 	// after '#', so that a credential is unique to its request.
 	Creds map[string]string `json:"creds,omitempty"`
+	// RawPaths: after each client call the goroutine also hands one raw GET of these paths (unrouted paths, the
+	// spec-file route) straight to API.ServeHTTP: requests that match no operation are served concurrently too.
+	RawPaths []string `json:"rawPaths,omitempty"`
 }
 
 // uniqueFill overwrites the leaves of v with values unique to tag (strings, integers, times), so that a
@@ -158,6 +163,9 @@ func RunConcurrent(reg Registry, rec *Recorder, g Group) {
 			n++
 			id := fmt.Sprintf("r%dg%dk%d", cfg.Round, gi, k)
 			ids = append(ids, id)
+			if len(cfg.RawPaths) > 0 {
+				ids = append(ids, id+"x")
+			}
 			js = append(js, job{id: id, tag: cfg.Round*100000 + n, c: callable[r.Intn(len(callable))]})
 		}
 		jobs = append(jobs, js)
@@ -210,6 +218,28 @@ func RunConcurrent(reg Registry, rec *Recorder, g Group) {
 					ret["ok"] = false
 				}
 				rec.Emit(ret)
+				if len(cfg.RawPaths) > 0 {
+					path := cfg.RawPaths[j.tag%len(cfg.RawPaths)]
+					raw := Event{"ev": "Raw", "case": j.id + "x", "path": path, "panic": ""}
+					func() {
+						defer func() {
+							if p := recover(); p != nil {
+								raw["panic"] = fmt.Sprintf("%v", p)
+							}
+						}()
+						cw := &countingWriter{hdr: http.Header{}}
+						rctx := context.WithValue(context.Background(), keyCase, &caseCtx{id: j.id + "x"})
+						rq := (&http.Request{Method: "GET", URL: &url.URL{Path: path}, Proto: "HTTP/1.1", ProtoMajor: 1, ProtoMinor: 1, Header: http.Header{}, Body: http.NoBody, Host: "example.test"}).WithContext(rctx)
+						runtime.Gosched()
+						api.ServeHTTP(cw, rq)
+						st := cw.status
+						if !cw.wrote {
+							st = 200
+						}
+						raw["status"], raw["writes"], raw["bodyLen"] = st, cw.writes, cw.body.Len()
+					}()
+					rec.Emit(raw)
+				}
 			}
 		}(jobs[gi])
 	}
